@@ -5,7 +5,7 @@ From Avo Require Import Base.Prelude.
 Open Scope string_scope.
 
 Definition covered_ranges : list (string * string) := [
-  ("pass/alloc.go:AddInterferenceSet:s", "interference_edges_order_free: the recorded edge multiset and `possible` do not depend on the order; the final allocation depends on the edge list only through update, see update_edge_order_free");
+  ("pass/alloc.go:AddInterferenceSet:s", "interference_edges_order_free + allocate_after_interference_order_free: the recorded edges agree up to order, `possible` is the same map, and the allocation computed from the state is identical (allocate_order_free, update_edge_order_free)");
   ("pass/alloc.go:NewAllocator:idset", "sortregisters_canonical: the id list is sorted by (priority, id) with unique keys right after being built");
   ("pass/alloc.go:mostrestricted:a.possible", "most_restricted_order_free: minimum of (length, id) over unique keys");
   ("pass/isa.go:RequiredISAExtensions:set", "isa_sorted_unique: the list is sorted after being built from the set");
@@ -15,7 +15,7 @@ Definition covered_ranges : list (string * string) := [
   ("reg/set.go:Equals:s", "boolean result: conjunction over entries");
   ("reg/set.go:OfKind:s", "ms_fold_add_order_free");
   ("reg/set.go:Update:t", "ms_fold_add_order_free (set and changed flag)");
-  ("reg/types.go:Merge:b", "merge_order_free: insertion of distinct keys commutes; error iff some common key disagrees")
+  ("reg/types.go:Merge:b", "merge_order_free: folding the entries in any order gives the same map or the same error")
 ].
 
 Definition indices_of_uncovered (found : list string) : list N :=
